@@ -25,14 +25,14 @@ Qed.
 Lemma append_data_a_nil b data : append_data_a [] b data = (append_data b data, []).
 Proof. unfold append_data_a, append_data. destruct (bstatic b); [reflexivity|]. destruct data; [reflexivity | apply insert_data_a_nil]. Qed.
 
-Lemma create_a_nil data block : create_a [] data block = (Some (create data block), []).
-Proof. unfold create_a. now destruct data. Qed.
+Lemma create_a_nil data block : create_a [] data block = (create_opt data block, []).
+Proof. unfold create_a. cbn [alloc negb]. destruct data; [reflexivity|]. now destruct (create_opt _ _). Qed.
 
 Theorem step_a_granted b o : step_a [] b o = step b o.
 Proof.
   destruct o; cbn [step_a step]; try reflexivity; unfold rb_a, rob_a, made.
   - now rewrite create_a_nil.
-  - unfold duplicate_a, duplicate. now rewrite create_a_nil.
+  - unfold duplicate_a, duplicate_opt. now rewrite create_a_nil.
   - unfold insert_a, insert. destruct (bstatic b); [reflexivity | now rewrite insert_data_a_nil].
   - unfold insert_cstr_a, insert_cstr. destruct (bstatic b); [reflexivity | now rewrite insert_data_a_nil].
   - unfold append_a, append. destruct (bstatic b); [reflexivity | now rewrite append_data_a_nil].
@@ -87,8 +87,11 @@ Proof.
 Qed.
 
 Lemma create_a_cases orc data block :
-  fst (create_a orc data block) = Some (create data block) \/ fst (create_a orc data block) = None.
-Proof. unfold create_a. destruct orc as [|[|] [|[|] r]]; destruct data; cbn; auto. Qed.
+  fst (create_a orc data block) = create_opt data block \/ fst (create_a orc data block) = None.
+Proof.
+  unfold create_a. destruct orc as [|[|] [|[|] r]]; cbn [alloc negb]; auto;
+    destruct data; auto; destruct (create_opt _ _); cbn; auto.
+Qed.
 
 Ltac aon_rb H := unfold all_or_nothing; cbn [step_a step]; unfold rb_a, rb, failed;
   destruct H as [H | H]; rewrite H; [now left | right; cbn; auto].
@@ -98,11 +101,11 @@ Theorem alloc_all_or_nothing orc b o :
 Proof.
   destruct o; try exact I; try (left; reflexivity).
   - unfold all_or_nothing; cbn [step_a step]; unfold made, failed.
-    destruct (create_a_cases orc data block) as [H | H]; rewrite H; [now left | right; cbn; auto].
+    destruct (create_a_cases orc data block) as [H | H]; rewrite H; [left; now destruct (create_opt _ _) | right; cbn; auto].
   - unfold all_or_nothing; cbn [step_a step]; unfold made, failed, sta_create_a.
     destruct orc as [|[|] r]; cbn; auto.
-  - unfold all_or_nothing; cbn [step_a step]; unfold made, failed, duplicate_a. unfold duplicate.
-    destruct (create_a_cases orc (contents b) (N.of_nat (blen b))) as [H | H]; rewrite H; [now left | right; cbn; auto].
+  - unfold all_or_nothing; cbn [step_a step]; unfold made, failed, duplicate_a. unfold duplicate_opt.
+    destruct (create_a_cases orc (contents b) (N.of_nat (blen b))) as [H | H]; rewrite H; [left; now destruct (create_opt _ _) | right; cbn; auto].
   - unfold all_or_nothing; cbn [step_a step]; unfold rb_a, rb, failed. unfold insert_a, insert.
     destruct (bstatic b); [now left|]. pose proof (insert_data_a_cases orc b pos (contents (create src 1))) as H. aon_rb H.
   - unfold all_or_nothing; cbn [step_a step]; unfold rb_a, rb, failed. unfold insert_cstr_a, insert_cstr.
